@@ -69,7 +69,7 @@ breaking('W3-count-formula', {'C01': 'W3', 'C02': 'W4'}, edit=[(M + 'manifold/_s
 breaking('G1-analysis-order', {'C16': 'G1'}, edit=[(M + 'gellmann.py', "ret = np.concatenate([aS,aA,aD,aI[:,np.newaxis]], axis=1)", "ret = np.concatenate([aA,aS,aD,aI[:,np.newaxis]], axis=1)")])
 breaking('G2-wrong-field', {'C02': 'G2', 'C16': 'G2'}, edit=[(M + 'manifold/_internal.py', "mat = numqi.gellmann.gellmann_basis_to_matrix(np.concatenate([tmp0, theta, tmp1], axis=1)).imag\n        else:\n            tmp0 = np.zeros((N1, 1), dtype=theta.dtype)\n            mat = 1j*numqi.gellmann.gellmann_basis_to_matrix(np.concatenate([theta, tmp0], axis=1))\n        ret = np.stack", "mat = numqi.gellmann.gellmann_basis_to_matrix(np.concatenate([theta, tmp0, tmp1], axis=1)).imag\n        else:\n            tmp0 = np.zeros((N1, 1), dtype=theta.dtype)\n            mat = 1j*numqi.gellmann.gellmann_basis_to_matrix(np.concatenate([theta, tmp0], axis=1))\n        ret = np.stack")])
 breaking('G3-wrong-block', {'C20': 'G3'}, edit=[(M + 'matrix_space/_misc.py', "tmp3 = np.concatenate([x[:,:N3], np.zeros((x.shape[0],N3),dtype=x.dtype),x[:,N3:]], axis=1)\n                ret.append(gellmann_basis_to_matrix(tmp3))", "tmp3 = np.concatenate([np.zeros((x.shape[0],N3),dtype=x.dtype),x[:,:N3],x[:,N3:]], axis=1)\n                ret.append(gellmann_basis_to_matrix(tmp3))")])
-breaking('B1-one-arm-sign', {'C03': 'B1', 'C04': 'B1'}, edit=[(M + 'gate/_internal.py', "ret = np.stack([ca-isa,zero,zero,ca+isa], axis=-1).reshape(*ca.shape,2,2)", "ret = np.stack([ca+isa,zero,zero,ca-isa], axis=-1).reshape(*ca.shape,2,2)")])
+breaking('B1-one-arm-sign', {'C03': 'B1', 'C04': 'B1'}, edit=[(M + 'gate/_internal.py', "ret = np.stack([ca-isa,zero,zero,ca+isa], axis=-1).reshape(*ca.shape,2,2)", "ret = np.stack([ca-isa,zero,zero,ca-isa], axis=-1).reshape(*ca.shape,2,2)")])
 breaking('B1-dropped-conj', {'C01': 'B1'}, edit=[(M + 'manifold/_internal.py', "ret = tmp3 @ tmp3.transpose(0,2,1).conj()", "ret = tmp3 @ tmp3.transpose(0,2,1)")])
 breaking('D1-swapped-control', {'C03': 'D1'}, edit=[(M + 'sim/circuit.py', "q0 = numqi.sim.state.apply_control_n_gate(q0, gate.array, index[0], index[1])", "q0 = numqi.sim.state.apply_control_n_gate(q0, gate.array, index[1], index[0])")])
 breaking('D2-wrong-operator', {'C03': 'D2', 'C19': 'D2'}, edit=[(M + 'sim/circuit.py', "cy = _control_gate('cy', numqi.gate.pauli.sy, 1, 1)", "cy = _control_gate('cy', numqi.gate.pauli.sz, 1, 1)")])
